@@ -270,7 +270,7 @@ def obligations(tier):
                 continue
             out += specs("C20.exp.schedules_setter", [{"L": L, "sizes": list(s)}], ob_exp_sched_setter, 1 + L * L)
     for tomo in TOMO_SHAPE:
-        for L in tiers(tier, [2, 3] + ([4] if tomo == "qmpt" else []), [2, 3, 4, 5]):
+        for L in tiers(tier, [2, 3] + ([4] if tomo in ("qmpt", "qpt") else []), [2, 3, 4, 5]):
             out += specs("C20.tomo.custom", [{"tomo": tomo, "L": L}], ob_tomo_custom, 10 * L)
         out += specs("C20.tomo.all", [{"tomo": tomo, "sysname": "Q1"}], ob_tomo_all, 2)
     out += specs("C20.exec", [{"sysname": "Q1", "j": j} for j in range(6)], ob_exec, 3)
